@@ -1,4 +1,5 @@
 import DcVerif.Lemmas.Ring
+import DcVerif.Props.C04
 /-!
 # C13 — a later barrier stage sees an event only after the previous stage finished it (single-producer pipelines)
 
@@ -12,8 +13,9 @@ For every ring size, topology, batch list, wait strategy and **every schedule** 
 * `c13_producer_gated_by_last_stage` / `c13_no_stage_lapped` — the producer only reads the last stage's cursors, yet while
   it writes sequence `w` *every* handler of *every* stage that is handling `i` satisfies `i < w < i + n`.
 
-That stage `k+1` also *observes the modifications* made by stage `k` is the happens-before statement R2 of C05
-(`DcVerif/Props/C05.lean`); the payload values themselves are checked on the implementation's events by the driver.
+* `c13_sees_earlier_modifications` — on the slot layer (`Model/RingPay.lean`): what a handler of stage `k+1` is handed for a
+  sequence is what stage `k` was handed, with stage `k`'s mutable handler (if it has one) applied — it observes all
+  modifications of the previous stage. That the accesses are also *ordered* (happens-before) is R2 of C05.
 -/
 namespace C13
 open Ring
@@ -63,6 +65,13 @@ theorem c13_no_stage_lapped {x : PSt} (hr : Reachable x) (hw : x.p.pc = .write) 
     (hc : (x.s.cons k j).pc = .handle) (hi : (x.s.cons k j).i ≤ (x.s.cons k j).avail) :
     (x.s.cons k j).i < x.p.w ∧ x.p.w < (x.s.cons k j).i + x.s.n :=
   no_lap x (reachable_inv hr) hw hww k j hk hj hc hi
+
+/-- a handler of stage `k+1` observes exactly the modifications made by stage `k` (and, through it, by all earlier stages) -/
+theorem c13_sees_earlier_modifications {c : RingPay.PCfg} {s : RingPay.PaySt} (hr : C04.PayReachable c s) (k j : Nat)
+    (hk : k + 1 < s.x.s.K) (hj : j < s.x.s.h (k + 1)) (e : Nat × Nat) (he : e ∈ s.seen (k + 1) j) :
+    e.2 = (if c.mutH k 0 then c.tf k 0 (RingPay.expectBelow c k (c.pay e.1)) else RingPay.expectBelow c k (c.pay e.1)) := by
+  have := C04.c04_payload_intact hr (k + 1) j hk hj e he
+  simpa [RingPay.expectBelow] using this
 
 /-! non-vacuity: a two-stage pipeline in which the second stage is inside a batch -/
 def demo : PSt := runX (mk 4 2 (fun _ => 1) false [2, 1])
